@@ -23,10 +23,12 @@ class C02(Property):
                        'RosuModel.Props.C02FinalParts', 'RosuModel.Props.C02Final', 'RosuModel.Props.C02FinalDecoded', 'RosuModel.Props.C02FinalMania', 'RosuModel.Props.C02FinalToy',
                        'RosuModel.Props.C02FinalUnordered', ('RosuModel.Lemmas.RtTimelineDsv', 'Rosu.RtTiming'),
                        'RosuModel.Props.C02FinalCurves', 'RosuModel.Props.C02FinalScroll', 'RosuModel.Props.C02FinalScrollToy', 'RosuModel.Props.C02FinalScrollExact', 'RosuModel.Props.C02IeeeTiming',
-                       'RosuModel.Props.C02Capstone', 'RosuModel.Props.C02CapstoneToy', 'RosuModel.Props.C02CapstoneToyRt', 'RosuModel.Props.C02CapstoneFalse']   # files whose top-level theorems are all audited
+                       'RosuModel.Props.C02IeeeTiming2', ('RosuModel.Lemmas.FloatDivAntiPos', 'Rosu.FAM'), 'RosuModel.Props.C02Capstone', 'RosuModel.Props.C02CapstoneToy', 'RosuModel.Props.C02CapstoneToyRt', 'RosuModel.Props.C02CapstoneFalse']   # files whose top-level theorems are all audited
     namespace = "Rosu.C02"
     design_ref = "5.2"
     required_theorems = [
+        "sv_roundtrip_mono_float", "scroll_roundtrip_mono_float", "sv_drift_direction_float", "sv_orbit_up_float", "sv_orbit_down_float", "sv_no_cycle_float",
+        "sv_roundtrip_stable_float_partial", "sv_roundtrip_stable_critical_float", "sv_roundtrip_stable_ends_float", "sv_orbit_witnesses_float",
         "roundtrip_decoded_capstone", "roundtrip_statement_full_on_domain", "exactLaws_zc", "cap_domain", "cap_roundtrip", "cap_roundtrip_total",
         "roundtrip_statement_full_false", "f16_roundtrip_fails", "f16_other_fields", "f16_not_in_domain",
         "sv_reread_err_float", "sv_roundtrip_err_float", "scroll_roundtrip_err_float", "sv_roundtrip_not_exact_float", "svInverse_iff_float", "sv_redundancy_flips_float",
@@ -53,6 +55,13 @@ class C02(Property):
                          "roundtrip_rep_partial", "roundtrip_rep_counts", "toyMap_timeline_hyps",
                          "records_roundtrip_decoded", "records_roundtrip_decoded_of_limitRep"]
     partial_theorems = {
+        "sv_no_cycle_float / sv_roundtrip_stable_float_partial": "Props/C02IeeeTiming2.lean, Lemmas/FloatDivAntiPos.lean (sixth session, wave 10): does the slider-velocity drift of decode → encode → decode stop after one "
+            "round? A search over 2.2·10^9 random doubles of [0.1, 10] and ±3·10^6 neighbours of 40 critical points found NO value that moves in a second round (8.5 % move in the first, by one ulp). PROVED: the "
+            "round trip is monotone (sv_roundtrip_mono_float, scroll_roundtrip_mono_float, from the anti-monotonicity of a/· for positive a), the drift keeps its direction (sv_drift_direction_float), the orbit "
+            "under repeated round trips is monotone (sv_orbit_up_float / _down_float) and NEVER RETURNS (sv_no_cycle_float) — so within the finitely many doubles of the range it is eventually constant: the "
+            "drift does stop; idempotence itself under the side condition BeatStable (the re-written beat length is the same double: sv_roundtrip_stable_float_partial), kernel-checked at 16 critical points "
+            "with neighbours, at both ends of the range, and on six drifting values through five rounds. NOT proved: idempotence for every value (sv_roundtrip_stable_float_statement; needs 'uniqueness of "
+            "rounding', absent from the error-bound layer; proof plan in the file)",
         "roundtrip_decoded_capstone": "Props/C02Capstone.lean (sixth session, wave 6): ONE theorem about decoded maps that composes every piece — for a file `bs` that decodes and finishes to `m`, with "
             "`DecodedDomain RF bs st m` (one named field per exclusion: chronological objects, LogGood timing lines (F15), NoDoubleSlash (F16), ObjResidualF17 per object (F17/F20/F21), CollectedTimesInLimit (F26), "
             "PathStable, TimelineHyps) and an encode `t`, the bytes of `t` decode to a single state whose every finish `m2` satisfies `PreservedEq m m2` (six record sections, colours, timing points, slider "
